@@ -652,6 +652,26 @@ func checkDispatch(viol func(string, ...interface{})) int {
 				viol("program %d procedure %d (%s): the handler received handle/path %x, sent %x", prog, num, pe.name, gfh, mark)
 			}
 		}
+		if len(tbl) > 7 && tbl[7].name == "NFSPROC3_WRITE" {
+			// well-formed WRITE arguments whose count disagrees with the data
+			// supplied must reach the handler like any other (it answers them)
+			for _, wa := range []*rfc.WRITE3args{
+				{File: rfcFh([]byte{1, 2, 3}), Count: 8192, Data: make([]byte, 4096)},
+				{File: rfcFh([]byte{1, 2, 3}), Count: 0, Data: make([]byte, 100)},
+				{File: rfcFh([]byte{1, 2, 3}), Count: ^rfc.Count3(0), Offset: ^rfc.Offset3(0)},
+				{File: rfcFh([]byte{1, 2, 3}), Count: 5, Data: make([]byte, 4)},
+			} {
+				h.rec("", nil)
+				err := c.Call(7, cred, cred, wa, new(rfc.WRITE3res))
+				n++
+				h.mu.Lock()
+				got := h.last
+				h.mu.Unlock()
+				if err != nil || got != "NFSPROC3_WRITE" {
+					viol("WRITE with count %d and %d data bytes: call error %v, reached %q (it must reach NFSPROC3_WRITE)", wa.Count, len(wa.Data), err, got)
+				}
+			}
+		}
 		for _, num := range extra {
 			h.rec("", nil)
 			err := c.Call(num, cred, cred, new(xdr.Void), new(xdr.Void))
